@@ -276,74 +276,89 @@ func (w *World) txTypeFlow(fn *ssa.Function, entry tyset) map[*ssa.BasicBlock]ty
 }
 
 // payloadTable extracts from Trx.fromProto the payload type allocated per tx
-// type constant ("" = no payload).
+// type constant ("" = no payload, "!rejected" = fromProto fails). fromProto is
+// evaluated once per tx type on its CFG (helpers expanded, values resolved
+// along the path), so the table does not depend on how the switch is written.
 func (w *World) payloadTable(r *Report) map[int64]string {
+	if w.payloadTab != nil {
+		return w.payloadTab
+	}
 	fn := needFn(r, "P-2", w, fref{"ctrlers/types", "Trx", "fromProto"})
 	if fn == nil {
 		return nil
 	}
-	// dataflow on txProto.Type: condition canon "(p0.Type == K)"
 	re := regexp.MustCompile(`^\(p0\.Type == (-?\d+)\)$`)
-	cf := w.constFlowOf(fn, universe(), func(c string) (int64, bool) {
-		if m := re.FindStringSubmatch(c); m != nil {
-			var k int64
-			fmt.Sscan(m[1], &k)
-			return k, true
-		}
-		return 0, false
-	})
-	// the value stored into recv.Payload on the success path: a phi over MakeInterface(alloc T) / nil
 	table := map[int64]string{}
-	var store *ssa.Store
-	for _, fs := range w.fieldStores(fn) {
-		if fs.Field.Name() == "Payload" {
-			store = fs.In.(*ssa.Store)
+	stores := 0
+	for _, k := range []int64{1, 2, 3, 4, 5, 6, 7, 8, 0} {
+		kk := k
+		if kk == 0 {
+			kk = 9999 // any other value
+		}
+		eval := func(c ssa.Value) (bool, bool) {
+			if m := re.FindStringSubmatch(w.Canon(c)); m != nil {
+				var x int64
+				fmt.Sscan(m[1], &x)
+				return x == kk, true
+			}
+			return false, false
+		}
+		event := func(in ssa.Instruction) string {
+			st, ok := in.(*ssa.Store)
+			if !ok {
+				return ""
+			}
+			fa, ok := st.Addr.(*ssa.FieldAddr)
+			if !ok || fieldName(fa.X.Type(), fa.Field) != "Payload" {
+				return ""
+			}
+			if n, _ := fieldOf(fa.X.Type(), fa.Field); n == nil || n.Obj().Name() != "Trx" {
+				return ""
+			}
+			switch x := w.ResolveOnPath(st.Val).(type) {
+			case *ssa.MakeInterface:
+				return "payload=" + typeStr(x.X.Type())
+			case *ssa.Const:
+				if x.IsNil() {
+					return "payload="
+				}
+			}
+			return "payload=?" + w.Canon(st.Val)
+		}
+		e := &enumerator{w: w, eval: eval, event: event, max: 400, complete: true, evCache: map[ssa.Instruction]string{}, hasEv: map[*ssa.Function]int{}, pathSensitiveEvents: true}
+		got := map[string]bool{}
+		okPaths := 0
+		e.walkFn(fn, nil, 0, func(ev []string, ret *ssa.Return, term string) {
+			if ret == nil || w.errState(ret) == triNonNil {
+				return
+			}
+			okPaths++
+			for _, x := range ev {
+				got[x] = true
+			}
+		})
+		w.cur = nil
+		switch {
+		case !e.complete:
+			table[k] = "?incomplete"
+		case okPaths == 0:
+			table[k] = "!rejected"
+		case len(got) == 1:
+			for x := range got {
+				table[k] = strings.TrimPrefix(x, "payload=")
+				stores++
+			}
+		case len(got) == 0:
+			table[k] = "?no-store"
+		default:
+			table[k] = "?conflict(" + strings.Join(sortedKeys(got), "|") + ")"
 		}
 	}
-	if store == nil {
+	if stores == 0 {
 		r.Undecided("P-2", "fromProto:payload-store", "Trx.fromProto no longer stores tx.Payload")
 		return nil
 	}
-	var walk func(v ssa.Value, set tyset)
-	seenPhi := map[*ssa.Phi]bool{}
-	put := func(k int64, t string) {
-		if old, ok := table[k]; ok && old != t {
-			table[k] = "?conflict(" + old + "|" + t + ")"
-		} else {
-			table[k] = t
-		}
-	}
-	walk = func(v ssa.Value, set tyset) {
-		switch x := v.(type) {
-		case *ssa.Phi:
-			if seenPhi[x] {
-				return
-			}
-			seenPhi[x] = true
-			for i, e := range x.Edges {
-				walk(e, cf.onEdge(x.Block().Preds[i], x.Block()))
-			}
-		case *ssa.MakeInterface:
-			for k := range set {
-				put(k, typeStr(x.X.Type()))
-			}
-		case *ssa.Const:
-			for k := range set {
-				put(k, "")
-			}
-		default:
-			for k := range set {
-				put(k, "?"+w.Canon(v))
-			}
-		}
-	}
-	walk(store.Val, cf.in[store.Block()])
-	// types for which fromProto fails never reach execution: those are the keys
-	// whose only way to the store is none; mark "other" as rejected if the
-	// default branch returns an error.
-	if _, ok := table[0]; !ok {
-		table[0] = "!rejected"
-	}
+	w.payloadTab = table
 	return table
 }
 
